@@ -3181,7 +3181,8 @@ def aam(ir, instr, src):
             mRAX[instr.mode][16:]
         )
         e += [m2_expr.ExprAssign(mRAX[instr.mode], newEAX)]
-        e += update_flag_arith(newEAX)
+        # SF, ZF and PF are set according to the resulting AL
+        e += update_flag_arith(newEAX[:8])
         e.append(m2_expr.ExprAssign(af, m2_expr.ExprInt(0, 1)))
     else:
         e.append(
@@ -3201,7 +3202,8 @@ def aad(_, instr, src):
                                  m2_expr.ExprInt(0, 8),
                                  mRAX[instr.mode][16:])
     e += [m2_expr.ExprAssign(mRAX[instr.mode], newEAX)]
-    e += update_flag_arith(newEAX)
+    # SF, ZF and PF are set according to the resulting AL
+    e += update_flag_arith(newEAX[:8])
     e.append(m2_expr.ExprAssign(af, m2_expr.ExprInt(0, 1)))
     return e, []
 
